@@ -102,3 +102,30 @@ Proof.
   reflexivity.
 Qed.
 Print Assumptions C13_brzozowski_pipeline.
+
+(* The checkers the correspondence run evaluates on every automaton the implementation returns mean what they say:
+   [deterministic] holds exactly when there is at most one initial state, no epsilon arc and at most one arc per state
+   and symbol; [is_trim] holds exactly when every state lies on a path from an initial state and on a path to a final
+   state; [same_states] compares two state lists as sets. *)
+From GV.proofs Require DetCheckerProofs CompareSpecs.
+Theorem C13_checkers_sound_complete : forall (S : SR) (m : wfsa S),
+  (deterministic m = true <->
+     (forall e1 e2, In e1 (winit m) -> In e2 (winit m) -> fst e1 = fst e2) /\
+     (forall ar, In ar (warcs m) -> albl ar <> None) /\
+     (forall i j ar1 ar2 a, nth_error (warcs m) i = Some ar1 -> nth_error (warcs m) j = Some ar2 ->
+        asrc ar1 = asrc ar2 -> albl ar1 = Some a -> albl ar2 = Some a -> i = j)) /\
+  (is_trim m = true <->
+     forall q, In q (all_states m) ->
+       (exists e, In e (winit m) /\ TrimSearchProofs.path_to m (fst e) q) /\
+       (exists e, In e (wfinal m) /\ TrimSearchProofs.path_to m q (fst e))) /\
+  (forall q, In q (all_states m) <->
+     (exists e, In e (winit m) /\ fst e = q) \/ (exists e, In e (wfinal m) /\ fst e = q) \/
+     (exists ar, In ar (warcs m) /\ (asrc ar = q \/ adst ar = q))) /\
+  (forall a b : list nat, TrimSearch.same_states a b = true <-> (forall x, In x a <-> In x b)).
+Proof.
+  intros S m.
+  split; [exact (DetCheckerProofs.deterministic_spec S m)|].
+  split; [exact (DetCheckerProofs.is_trim_spec S m)|].
+  split; [intros q; exact (DetCheckerProofs.all_states_spec S m q)|exact CompareSpecs.same_states_spec].
+Qed.
+Print Assumptions C13_checkers_sound_complete.
